@@ -66,6 +66,9 @@ type lockAnalysis struct {
 	callbackLvl map[*types.Func]map[int]int
 	// paramGuard: helpers that take the mutex and a table as parameters (lookup(&vm.mu, vm.tbl, k))
 	paramGuard map[*types.Func]*paramGuardSummary
+	// helperAcc: accesses made by lock-less unexported helpers (from the previous pass); a call to such
+	// a helper is an access of those fields in the caller's critical section
+	helperAcc map[*types.Func][]lockAccess
 }
 
 type paramGuardSummary struct {
@@ -82,7 +85,7 @@ func newLockAnalysis(r *Run, pkg *packages.Package, owner *types.Named) *lockAna
 	la := &lockAnalysis{r: r, pkg: pkg, owner: owner, mutexes: map[*types.Var]bool{}, guarded: map[*types.Var]bool{},
 		accesses: map[*ast.FuncDecl][]lockAccess{}, calls: map[*ast.FuncDecl][]lockCallSite{}, locks: map[*ast.FuncDecl]bool{},
 		ownReads: map[*types.Func]map[*types.Var]bool{}, declOf: map[*types.Func]*ast.FuncDecl{}, exitHeld: map[*ast.FuncDecl][]token.Pos{},
-		callbackLvl: map[*types.Func]map[int]int{}, paramGuard: map[*types.Func]*paramGuardSummary{}}
+		callbackLvl: map[*types.Func]map[int]int{}, paramGuard: map[*types.Func]*paramGuardSummary{}, helperAcc: map[*types.Func][]lockAccess{}}
 	st := owner.Underlying().(*types.Struct)
 	for i := 0; i < st.NumFields(); i++ {
 		f := st.Field(i)
@@ -294,7 +297,37 @@ func (la *lockAnalysis) analyseFunc(fd *ast.FuncDecl, entryLvl int) {
 					if s.lvl > callMax[x.Pos()] {
 						callMax[x.Pos()] = s.lvl
 					}
-					_ = callee
+					// a lock-less helper's accesses happen in this critical section
+					if accs := la.helperAcc[callee.Origin()]; len(accs) > 0 {
+						seenF := map[string]bool{}
+						for _, a := range accs {
+							k := fmt.Sprintf("%p/%v", a.field, a.write)
+							if seenF[k] || a.stale {
+								continue
+							}
+							seenF[k] = true
+							if !a.write {
+								record(lockAccess{fn: fd, field: a.field, pos: x.Pos(), lvl: s.lvl})
+								if s.lvl > 0 {
+									s.cur[a.field] = true
+									delete(s.stale, a.field)
+								} else {
+									s.stale[a.field] = true
+								}
+							}
+						}
+						for _, a := range accs {
+							k := fmt.Sprintf("w%p", a.field)
+							if !a.write || a.stale || seenF[k] {
+								continue
+							}
+							seenF[k] = true
+							record(lockAccess{fn: fd, field: a.field, write: true, pos: x.Pos(), lvl: s.lvl})
+							if s.stale[a.field] {
+								record(lockAccess{fn: fd, field: a.field, write: true, stale: true, pos: x.Pos(), lvl: s.lvl})
+							}
+						}
+					}
 					// own-lock readers make their fields stale for the caller
 					if rs, ok := la.ownReads[callee]; ok && s.lvl == 0 {
 						for f := range rs {
@@ -538,6 +571,26 @@ func (la *lockAnalysis) runMode(ruleLock, ruleAtomic string, constructorNames ma
 	for pass := 0; pass < 2; pass++ {
 		for _, fd := range decls {
 			la.analyseFunc(fd, 0)
+		}
+		for _, fd := range decls {
+			o, _ := info.Defs[fd.Name].(*types.Func)
+			if o == nil || o.Exported() || la.locks[fd] || constructorNames[fd.Name.Name] || fd.Recv == nil {
+				continue
+			}
+			// only helpers that live on another type than the owner (a lock-less registry struct): the
+			// owner's own unexported helpers keep being judged at their call sites as before
+			if nt := namedOf(info.TypeOf(fd.Recv.List[0].Type)); nt == nil || nt == la.owner {
+				continue
+			}
+			var accs []lockAccess
+			for _, a := range la.accesses[fd] {
+				if a.lvl == 0 && a.fn == fd {
+					accs = append(accs, a)
+				}
+			}
+			if len(accs) > 0 {
+				la.helperAcc[o] = accs
+			}
 		}
 		for _, fd := range decls {
 			o, _ := info.Defs[fd.Name].(*types.Func)
